@@ -273,7 +273,7 @@ def _case(draw):
     Xq = []
     for k in range(nq):
         kind = draw(st.sampled_from(["row", "pert", "pert", "box", "box",
-                                     "mid"]))
+                                     "mid", "edge"]))
         if with_far and k == 0:
             kind = "far"
         elif with_far and draw(st.integers(0, 2)) == 2:
@@ -286,6 +286,14 @@ def _case(draw):
         elif kind == "box":
             q = [round(draw(st.floats(float(lo_b[j]), float(hi_b[j]))), 2)
                  for j in range(d)]
+        elif kind == "edge":
+            # rbf kernel value in the denormal range (exp(-709) .. exp(-744)):
+            # the kernel mass is positive but 1 / mass overflows
+            g_eff = case.get("gamma") or 1.0 / d
+            u = draw(st.sampled_from([709.0, 715.0, 725.0, 735.0, 742.0]))
+            q = list(base)
+            j = draw(st.integers(0, d - 1))
+            q[j] = q[j] + draw(st.sampled_from([-1, 1])) * (u / g_eff) ** 0.5
         elif kind == "mid":
             q = list(base)
             j = draw(st.integers(0, d - 1))
@@ -383,8 +391,9 @@ def _kernel_model(case):
         out["geom"].append(g)
         ev = None
         if proper:
-            if g in ("near", "mid", "far"):
-                ev = True
+            # a proper prior alone guarantees a well-defined posterior -
+            # also where the kernel mass is a subnormal number ("sub")
+            ev = True
         elif g == "near":
             # any labeled sample whose kernel weight has not underflowed
             # contributes a strictly positive scatter term (two-pass variance)
@@ -504,6 +513,28 @@ def _check_predict_coherence(reg, comp, Xq, rv, trig, viol):
                     comp, f"predict_{name}_differs_from_distribution", trig,
                     f"{where}: {val.tolist()} vs distribution "
                     f"{ref[name].tolist()}"))
+    # a caller that re-uses ONE query buffer: predict must describe the
+    # buffer's current content, not what the same object held before
+    if not viol:
+        buf = Xq.copy()
+        guarded(reg.predict, buf, return_std=True)
+        X2 = Xq[::-1] + (1 if Xq.dtype.kind in "iu" else 0.5)
+        buf[...] = X2
+        ok, out = guarded(reg.predict, buf, return_std=True)
+        ok2, rv2 = guarded(reg.predict_target_distribution, X2.copy())
+        if ok and ok2 and isinstance(out, tuple) and len(out) == 2:
+            with quiet():
+                m2, s2 = _as_rows(rv2.mean(), q), _as_rows(rv2.std(), q)
+            for name, val, want in (("mean", out[0], m2),
+                                    ("std", out[1], s2)):
+                val = np.asarray(val)
+                if val.shape == (q,) and not arr_close(val, want, **SAME):
+                    viol.append(Violation(
+                        comp, f"predict_{name}_differs_from_distribution",
+                        trig + "&query_buffer_reused",
+                        f"after the buffer was overwritten in place: "
+                        f"{val.tolist()} vs distribution {want.tolist()}"))
+                    break
     return ref
 
 
